@@ -84,9 +84,9 @@ public:
     return exclusionPatterns;
   }
 
-  std::vector<StringRef> mustScanAfterPaths;
+  std::vector<std::string> mustScanAfterPaths;
 
-  const std::vector<StringRef>& getMustScanAfterPaths() const {
+  const std::vector<std::string>& getMustScanAfterPaths() const {
     return mustScanAfterPaths;
   }
 
